@@ -458,7 +458,9 @@ enum MKind {
     M_APPEND, M_APPEND_SELF, M_APPEND_CSTR, M_APPEND_CHAR, M_REPLACE_SELF, M_SUBSTR_SELF, M_TRIM_SELF, M_UPPER_SELF, M_CLEAR, M_SET_STRING, M_SET_MOVE,
     // the argument is a raw pointer / view into the target's own storage: it must be consumed as a value
     M_ASSIGN_OWN_CSTR, M_SET_OWN_TAIL, M_ASSIGN_OWN_HEAD_VIEW, M_SET_OWN_TAIL_VIEW, M_APPEND_OWN_CSTR, M_SET_OWN_PTRLEN,
-    M_SET_OWN_PTRLEN_SUBST, M_SET_OWN_TAIL_ASSUME, M_SET_OWN_VIEW_SUBST
+    M_SET_OWN_PTRLEN_SUBST, M_SET_OWN_TAIL_ASSUME, M_SET_OWN_VIEW_SUBST,
+    // the target is its own argument / the source denotes no text at all
+    M_SET_SELF, M_ASSIGN_NULL_VIEW, M_SET_NULL_CSTR, M_ASSIGN_NULL_U8VIEW
 };
 struct MOp {
     MKind k;
@@ -516,6 +518,10 @@ struct StrSys : World {
             ops.push_back(MOp{M_SET_OWN_PTRLEN_SUBST, i, i, 0});
             ops.push_back(MOp{M_SET_OWN_TAIL_ASSUME, i, i, 0});
             ops.push_back(MOp{M_SET_OWN_VIEW_SUBST, i, i, 0});
+            ops.push_back(MOp{M_SET_SELF, i, i, 0});
+            ops.push_back(MOp{M_ASSIGN_NULL_VIEW, i, -1, 0});
+            ops.push_back(MOp{M_SET_NULL_CSTR, i, -1, 0});
+            ops.push_back(MOp{M_ASSIGN_NULL_U8VIEW, i, -1, 0});
         }
         vf::tracking_begin();
     }
@@ -589,6 +595,10 @@ struct StrSys : World {
         case M_SET_OWN_PTRLEN_SUBST: return strf("s%d.set(s%d.c_str(), size/2, substitute_invalid)", o.i, o.i);
         case M_SET_OWN_TAIL_ASSUME: return strf("s%d.set(s%d.c_str() + size/2, size - size/2, assume_valid)", o.i, o.i);
         case M_SET_OWN_VIEW_SUBST: return strf("s%d.set(s%d.view(size/2), substitute_invalid)", o.i, o.i);
+        case M_SET_SELF: return strf("s%d.set(s%d)", o.i, o.i);
+        case M_ASSIGN_NULL_VIEW: return strf("s%d = std::string_view()", o.i);
+        case M_SET_NULL_CSTR: return strf("s%d.set((const char *)nullptr)", o.i);
+        case M_ASSIGN_NULL_U8VIEW: return strf("s%d.set(std::u8string_view(), substitute_invalid)", o.i);
         }
         return "?";
     }
@@ -833,6 +843,25 @@ struct StrSys : World {
                 LIB(*a += a->c_str());
                 m += std::string(m.c_str());
                 tag = "append(own c_str)";
+                break;
+            case M_SET_SELF:
+                LIB(a->set(*static_cast<const S *>(a)));
+                tag = "set(self)";
+                break;
+            case M_ASSIGN_NULL_VIEW:
+                LIB(*a = std::string_view());
+                m.clear();
+                tag = "assign(null string_view)";
+                break;
+            case M_SET_NULL_CSTR:
+                LIB(a->set(static_cast<const char *>(nullptr)));
+                m.clear();
+                tag = "set(null cstr)";
+                break;
+            case M_ASSIGN_NULL_U8VIEW:
+                LIB(a->set(std::u8string_view(), ST::substitute_invalid));
+                m.clear();
+                tag = "set(null u8string_view)";
                 break;
             case M_SET_OWN_PTRLEN_SUBST: {
                 size_t k = own_cut(m, m.size() / 2);
